@@ -71,6 +71,18 @@ def check_wrap(o):
         raw2 = f(px2)
     if isinstance(raw2, np.ndarray) and np.shares_memory(raw2, px2):
         bad.append(("the feature of a raw array shares memory with that array", {}, None))
+    # where the image came from is not part of what the feature computes: the same image remembering a file path (as every
+    # imported image does) gives the same feature image, landmarks and mask
+    import pathlib
+
+    img_p = img.copy()
+    img_p.path = pathlib.Path("/data/set.v2/face_01.png")
+    with warnings.catch_warnings():
+        warnings.simplefilter("ignore")
+        r_p = f(img_p)
+    d = same(state(r), state(r_p))
+    if d:
+        bad.append(("the feature of the same image carrying a file path (an imported image) differs: " + d, {}, None))
     if o["daisy"]["rings"]:
         # options given explicitly with the values the defaults stand for give the same feature; the caller's option lists are
         # not modified, so a second call with the same objects agrees with the first
